@@ -238,10 +238,16 @@ fn observe(what: &str, h: &mut Hist, desc: &str) -> Result<(), String> {
             let before = snapshot(eg);
             match lookup_rec_expr(s, eg) {
                 None => return Err(format!("C09:lookup.agrees {}: lookup of the inserted term {} fails", desc, s)),
-                Some(l) => if !eg.eq(&l, &h.handles[k]) { return Err(format!("C09:lookup.agrees {}: lookup of {} gives {:?}, insertion gave {:?}", desc, s, l, h.handles[k])); }
+                Some(l) => {
+                    if !eg.eq(&l, &h.handles[k]) { return Err(format!("C09:lookup.agrees {}: lookup of {} gives {:?}, insertion gave {:?}", desc, s, l, h.handles[k])); }
+                    // "the returned invocation's slots are the term's free slots minus those proven redundant": its parameter
+                    // slots are exactly the (remaining) slots of the class it names
+                    if eg.is_alive(l.id) && l.m.keys() != eg.slots(l.id) { return Err(format!("C09:lookup.slots {}: lookup of {} gives {:?}, whose parameter slots are not the class's slots {:?} (a slot proven redundant is still passed)", desc, s, l, eg.slots(l.id))); }
+                }
             }
             if before != snapshot(eg) { return Err(format!("C09:lookup.pure {}: lookup of {} changed the e-graph", desc, s)); }
             let x = eg.add_expr(s.clone());
+            if eg.is_alive(x.id) && x.m.keys() != eg.slots(x.id) { return Err(format!("C09:add.slots {}: re-inserting {} gives {:?}, whose parameter slots are not the class's slots {:?}", desc, s, x, eg.slots(x.id))); }
             if before != snapshot(eg) { return Err(format!("C09:add.known-creates-nothing {}: re-inserting {} changed the e-graph", desc, s)); }
             if !eg.eq(&x, &h.handles[k]) { return Err(format!("C09:add.known-creates-nothing {}: re-inserting {} gives {:?}, the first insertion gave {:?}", desc, s, x, h.handles[k])); }
             let rn = rename(&s.to_string());
